@@ -31,12 +31,16 @@ from .loader import AnalysisError
 from .loader import FuncInfo
 
 
+_PURE_FUNCS: Dict[str, Callable[..., Any]] = {"int": int, "str": str, "len": len, "float": float, "bool": bool, "abs": abs}
+
+
 class _Unknown:
     def __repr__(self) -> str:
         return "UNKNOWN"
 
 
 UNKNOWN = _Unknown()
+RETURNS_NONE = object()  # what a call hook returns for "the call is known to return None" (None = no opinion)
 
 
 @dataclass(frozen=True)
@@ -61,6 +65,10 @@ def as_text(v: Any) -> Optional[Text]:
     if isinstance(v, Text):
         return v
     return None
+
+
+class _PathRaises(Exception):
+    """The statement being evaluated certainly raises (a lookup of a key that a known dictionary lacks)."""
 
 
 class AbstractObject:
@@ -89,7 +97,7 @@ Outcome = Tuple[str, Optional[ast.AST], Any]
 class Explorer:
     def __init__(self, folder: Folder, fn: FuncInfo, oracle: Optional[Oracle] = None,
                  on_call: Optional[CallHook] = None, value_oracle: Optional[Callable[[ast.expr, Dict[str, Any]], Any]] = None,
-                 max_paths: int = 256, enter_loops: bool = False) -> None:
+                 max_paths: int = 256, enter_loops: bool = False, enter_with: bool = False) -> None:
         self.folder = folder
         self.fn = fn
         self.oracle = oracle or (lambda t, env: None)
@@ -98,6 +106,8 @@ class Explorer:
         self.max_paths = max_paths
         self.enter_loops = enter_loops  # walk a `for` body once (targets unknown) instead of skipping it
         self._loop_exits: List[List[Dict[str, Any]]] = []
+        self._try_depth = 0
+        self.enter_with = enter_with
         self.outcomes: List[Outcome] = []
         self.envs: List[Dict[str, Any]] = []  # environment of each outcome, same order
 
@@ -115,6 +125,13 @@ class Explorer:
             base = self.value(e.value, env) if isinstance(e.value, (ast.Name, ast.Attribute)) else None
             if isinstance(base, AbstractObject):
                 return base.peval_getattr(e.attr)
+        if isinstance(e, ast.Subscript) and isinstance(e.ctx, ast.Load) and isinstance(e.value, ast.Name) and isinstance(env.get(e.value.id), dict):
+            k = self.value(e.slice, env)
+            if isinstance(k, (str, int)) and not isinstance(k, (bool, Text)):
+                d = env[e.value.id]
+                if k in d:
+                    return d[k]
+                raise _PathRaises("KeyError")
         if (isinstance(e, ast.Call) and isinstance(e.func, ast.Name) and e.func.id == "str" and len(e.args) == 1 and not e.keywords
                 and "str" not in env):
             a0 = self.value(e.args[0], env)
@@ -148,6 +165,15 @@ class Explorer:
             a, b = as_text(self.value(e.left, env)), as_text(self.value(e.right, env))
             if a is not None or b is not None:
                 return _text(list((a or Text((None,))).parts) + list((b or Text((None,))).parts))
+        if isinstance(e, ast.BinOp) and isinstance(e.op, (ast.Add, ast.Sub, ast.Mult, ast.FloorDiv, ast.Mod)):
+            # arithmetic / concatenation of plain values the path knows (they may come from model objects)
+            a_, b_ = self.value(e.left, env), self.value(e.right, env)
+            ok_types = (int, float, str, tuple, list)
+            if (isinstance(a_, ok_types) and isinstance(b_, ok_types) and not isinstance(a_, (bool, Text)) and not isinstance(b_, (bool, Text))):
+                try:
+                    return self.folder._binop(e.op, a_, b_)
+                except Exception:  # noqa: BLE001
+                    return UNKNOWN
         if isinstance(e, ast.IfExp):
             t = self.test(e.test, env)
             if t is True:
@@ -163,8 +189,32 @@ class Explorer:
             args = [self.value(a, env) for a in e.args]
             if self.on_call is not None:
                 r = self.on_call(e, args, env)
+                if r is RETURNS_NONE:
+                    return None
                 if r is not None:
                     return r
+            if (isinstance(e.func, ast.Name) and e.func.id in _PURE_FUNCS and e.func.id not in env and not e.keywords and args
+                    and all(isinstance(a, (str, int, float, bool, type(None), tuple)) and not isinstance(a, Text) for a in args)):
+                # a pure builtin on values the path knows (the arguments may come from model objects)
+                try:
+                    return _PURE_FUNCS[e.func.id](*args)
+                except Exception:  # noqa: BLE001
+                    return UNKNOWN
+            if isinstance(e.func, ast.Attribute) and not e.keywords and isinstance(e.func.value, (ast.Name, ast.Attribute, ast.Subscript)):
+                # a pure method of a plain value the path knows (a table looked up with a known key)
+                recv = self.value(e.func.value, env)
+                plain = all(isinstance(a, (str, int, float, bool, type(None), tuple)) and not isinstance(a, Text) for a in args)
+                if isinstance(recv, dict) and e.func.attr == "get" and 1 <= len(args) <= 2 and plain:  # noqa: PLR2004
+                    try:
+                        return recv.get(*args)
+                    except TypeError:
+                        return UNKNOWN
+                if isinstance(recv, str) and not isinstance(recv, Text) and plain and e.func.attr in (
+                        "startswith", "endswith", "strip", "lstrip", "rstrip", "lower", "upper", "replace", "split", "isdigit"):
+                    try:
+                        return getattr(recv, e.func.attr)(*args)
+                    except Exception:  # noqa: BLE001
+                        return UNKNOWN
         if self.value_oracle is not None:
             # sub-expressions the rule knows the value of become constants before folding
             vo = self.value_oracle
@@ -344,7 +394,14 @@ class Explorer:
         for s in body:
             nxt: List[Dict[str, Any]] = []
             for e in envs:
-                nxt.extend(self.stmt(s, e))
+                try:
+                    nxt.extend(self.stmt(s, e))
+                except _PathRaises:
+                    # this path ends here with an exception: inside a `try` body the handlers take over (they
+                    # are explored anyway), elsewhere it is a way out of the function
+                    if self._try_depth == 0:
+                        self.outcomes.append(("raise", s, None))
+                        self.envs.append(e)
             envs = nxt
             if len(envs) + len(self.outcomes) > self.max_paths:
                 raise AnalysisError(f"partial evaluation of {self.fn.qualname}: too many paths")
@@ -353,6 +410,11 @@ class Explorer:
         return envs
 
     def stmt(self, s: ast.stmt, env: Dict[str, Any]) -> List[Dict[str, Any]]:
+        if isinstance(s, (ast.For, ast.AsyncFor, ast.While, ast.Expr)) and not env.get("$yield") and any(
+                isinstance(n, (ast.Yield, ast.YieldFrom)) for n in ast.walk(s)):
+            # the path has reached a statement that produces values (a generator's output)
+            env = dict(env)
+            env["$yield"] = True
         if isinstance(s, ast.Expr):
             if isinstance(s.value, ast.Constant):
                 return [env]
@@ -400,7 +462,12 @@ class Explorer:
             # from the state before the `try` with everything the body assigns unknown.  `$handlers` in the
             # environment records which handlers a path went through.
             out2: List[Dict[str, Any]] = []
-            for e in self.block(s.body, dict(env)):
+            self._try_depth += 1
+            try:
+                done_body = self.block(s.body, dict(env))
+            finally:
+                self._try_depth -= 1
+            for e in done_body:
                 out2.extend(self.block(s.orelse, e))
             for h in s.handlers:
                 eh = dict(env)
@@ -453,6 +520,27 @@ class Explorer:
                     elif merged.get(k, v) is not v and merged.get(k, v) != v:
                         merged[k] = UNKNOWN
             return [merged]
+        if isinstance(s, (ast.With, ast.AsyncWith)) and self.enter_with:
+            # the body runs as written; under `suppress(...)` it may also be abandoned at any point
+            env = dict(env)
+            swallows = False
+            for it in s.items:
+                self.value(it.context_expr, env)
+                if isinstance(it.context_expr, ast.Call) and isinstance(it.context_expr.func, (ast.Name, ast.Attribute)) and (
+                        getattr(it.context_expr.func, "id", None) == "suppress" or getattr(it.context_expr.func, "attr", None) == "suppress"):
+                    swallows = True
+                if it.optional_vars is not None:
+                    for n in ast.walk(it.optional_vars):
+                        if isinstance(n, ast.Name):
+                            env[n.id] = UNKNOWN
+            out3 = self.block(s.body, dict(env))
+            if swallows:
+                ea = dict(env)
+                for n in ast.walk(ast.Module(body=s.body, type_ignores=[])):
+                    if isinstance(n, ast.Name) and isinstance(n.ctx, ast.Store):
+                        ea[n.id] = UNKNOWN
+                out3.append(ea)
+            return out3
         if isinstance(s, (ast.For, ast.AsyncFor, ast.While, ast.With, ast.AsyncWith, ast.Try)):
             # not followed: every name (and text accumulator) the statement may assign becomes unknown;
             # a `return` inside it is reported with an unknown value
